@@ -101,6 +101,8 @@ def value(rot, i, v, flavour, freq):
         return -base if (i * 5 + rot + v) % 3 == 0 else base
     if flavour == "smooth":           # ratios close to one: safe under x**a and its inverse
         return (1000.0 if freq == C.D else 20.0) + base
+    if flavour == "jump":             # tenfold rises and falls from one period to the next (positive data)
+        return base * (10.0 if i % 2 else 1.0)
     if flavour == "smoothmix":        # the same magnitudes with changes of sign: ratios close to plus or minus one
         sm = (1000.0 if freq == C.D else 20.0) + base
         return -sm if (i * 5 + rot + v) % 3 == 0 else sm
@@ -545,6 +547,9 @@ def shard_change(item, res, ctx):
                 if func != "adiff_log":
                     # integer powers of a negative ratio are defined: annualised rates across a change of sign
                     eval_achange(ss, func, res, method=False, flavour="smoothmix")
+                else:
+                    # a*(log x - log y) stays moderate however large the ratio (365*log(10) = 840): no power is involved
+                    eval_achange(ss, func, res, method=False, flavour="jump")
             for conv in CONV:
                 if ROUNDTRIP[conv][2]:
                     eval_converter(ss, conv, res, -1, method=method)
